@@ -1257,7 +1257,7 @@ fn main() {
         }
     }
     if has("bgp-systematic") {
-        let ppm = if tiny { ((params.scale * 20.0).min(1.0) * 1_000_000.0) as u64 } else { 1_000_000 };
+        let ppm = if tiny { ((params.scale * 10.0).min(1.0) * 1_000_000.0) as u64 } else { 1_000_000 };
         phase_bgp_grow(&mut ctx, ppm.max(1));
     }
     lap("systematic");
